@@ -115,6 +115,22 @@ void symToMinterm(const ForRT &F, const SymMT &s, minterm &m)
     }
 }
 
+static std::string symStr(const SymMT &m, bool rel)
+{
+    std::ostringstream o;
+    o << "(";
+    for (size_t v = 1; v < m.from.size(); v++) {
+        if (v > 1) o << ",";
+        if (m.from[v] < 0) o << "*"; else o << m.from[v];
+        if (rel) {
+            o << ">";
+            if (m.to[v] == -2) o << "="; else if (m.to[v] < 0) o << "*"; else o << m.to[v];
+        }
+    }
+    o << ")";
+    return o.str();
+}
+
 static bool valLess(const Val &a, const Val &b)
 {
     if (a.inf) return false;
@@ -136,6 +152,7 @@ void World::opMkConst(const Step &s)
     if (F.kind() == FK_EVT && c.inf) c = Val::r(0.0);
     const Dom &D = doms[F.spec.dom].m;
     EdgeSlot* res = newEdge(s.client, fi);
+    desc << en(*res) << " = constant " << c.str() << " in " << fn(fi);
     res->tab = Table::constant(D, F.spec.rel, c);
     try {
         F.f->createConstant(toRangeval(F.kind(), c), *res->e);
@@ -180,6 +197,8 @@ void World::opMkVar(const Step &s)
         rterms[i] = toRangeval(F.kind(), terms[i]);
     }
     EdgeSlot* res = newEdge(s.client, fi);
+    desc << en(*res) << " = variable x" << v << (pr ? "'" : "") << " in " << fn(fi) << " terms";
+    if (custom) for (int i = 0; i < sz; i++) desc << " " << terms[i].str(); else desc << " default";
     res->tab = Table::constant(D, F.spec.rel, defaultOf(F.kind()));
     const long total = long(res->tab.v.size());
     for (long i = 0; i < total; i++) {
@@ -233,6 +252,7 @@ void World::opMkMinterm(const Step &s)
         if (deflt.inf && F.kind() != FK_EVP) deflt = defaultOf(F.kind());
     }
     EdgeSlot* res = newEdge(s.client, fi);
+    desc << en(*res) << " = minterm " << symStr(sm, F.spec.rel) << " value " << val.str() << " default " << deflt.str() << " in " << fn(fi);
     res->tab = Table::constant(D, F.spec.rel, deflt);
     const long total = long(res->tab.v.size());
     for (long i = 0; i < total; i++) {
@@ -320,6 +340,8 @@ void World::opMkColl(const Step &s, bool useMax)
         }
     }
     EdgeSlot* res = newEdge(s.client, fi);
+    desc << en(*res) << " = collection " << (useMax ? "max" : "min") << " default " << deflt.str() << " in " << fn(fi) << ":";
+    for (auto &m : ms) desc << " " << symStr(m, F.spec.rel) << "=" << m.val.str();
     res->tab = Table::constant(D, F.spec.rel, deflt);
     const long total = long(res->tab.v.size());
     for (long i = 0; i < total; i++) {
@@ -424,6 +446,7 @@ void World::opBinary(const Step &s)
     dd_edge ca_copy(*A.e), cb_copy(*B.e);
 
     EdgeSlot* res = newEdge(s.client, ri);
+    desc << en(*res) << " = " << binName(op) << "(" << en(A) << ", " << en(B) << ") in " << fn(ri);
     bool threw = false;
     std::string ename;
     error::code ecode = error::code(0);
@@ -513,6 +536,7 @@ void World::opComplement(const Step &s)
     if (ri < 0 || !sameOrder(A.forest, ri)) { note(OC_SKIP); return; }
     dd_edge a_copy(*A.e);
     EdgeSlot* res = newEdge(s.client, ri);
+    desc << en(*res) << " = COMPLEMENT(" << en(A) << ") in " << fn(ri);
     res->tab = A.tab;
     res->oracle = A.oracle;
     for (Val &x : res->tab.v) x = Val::b(!x.i);
@@ -547,12 +571,15 @@ void World::opCopy(const Step &s)
     EdgeSlot &A = *edges[ca[s.a[0] % ca.size()]];
     ForRT &FA = forests[A.forest];
     int ri = pickForest(s.a[1], [&](const ForRT &F) {
+        // KF-C10-1: identity-reduced MT relation -> EV+ relation (probe plans only)
+        if (FA.spec.rel && FA.spec.red == 2 && F.kind() == FK_EVP && FA.kind() != FK_EVP && s.a[5] != 999) return false;
         return F.spec.dom == FA.spec.dom && F.spec.rel == FA.spec.rel
             && F.kind() != FK_IDX;
     });
     if (ri < 0 || !sameOrder(A.forest, ri)) { note(OC_SKIP); return; }
     ForRT &FR = forests[ri];
     EdgeSlot* res = newEdge(s.client, ri);
+    desc << en(*res) << " = COPY(" << en(A) << " from " << fn(A.forest) << ") into " << fn(ri) << ((s.a[2] & 1) ? " and back" : "");
     res->tab = A.tab;
     res->oracle = A.oracle;
     // there-and-back identity is claimed where no information can be lost:
@@ -622,7 +649,9 @@ void World::opCopyEdge(const Step &s)
     res->oracle = A.oracle;
     res->e = new dd_edge(*A.e);
     res->born = uint64_t(cur_step);
+    res->id = next_edge_id++;
     edges.push_back(res);
+    desc << en(*res) << " = dd_edge(" << en(A) << ")";
     if (A.forest >= 0 && *res->e != *A.e) {
         failNow("I2", cur_family, "a copied edge is not equal to its source");
         return;
@@ -637,6 +666,7 @@ void World::opAssign(const Step &s)
     if (edges.size() < 2) { note(OC_SKIP); return; }
     EdgeSlot &T = *edges[s.a[0] % edges.size()];
     EdgeSlot &S = *edges[s.a[1] % edges.size()];
+    desc << en(T) << " := " << en(S);
     *T.e = *S.e;
     T.forest = S.forest;
     T.tab = S.tab;
@@ -649,6 +679,7 @@ void World::opRelease(const Step &s)
 {
     cur_family = "edges";
     if (edges.empty()) { note(OC_SKIP); return; }
+    desc << "release " << en(*edges[s.a[0] % edges.size()]);
     dropEdge(s.a[0] % edges.size());
     note(OC_OK);
 }
@@ -660,6 +691,7 @@ void World::opDrain(const Step &s)
     cur_family = "drain";
     int fi = pickForest(s.a[0], [](const ForRT &) { return true; });
     if (fi < 0) { note(OC_SKIP); return; }
+    desc << "drain " << fn(fi) << " (release every edge, clear caches mode " << s.a[1] % 3 << ")";
     for (size_t i = edges.size(); i; ) {
         --i;
         if (edges[i]->forest == fi) dropEdge(i);
@@ -696,6 +728,7 @@ void World::opMassCopy(const Step &s)
     static const unsigned counts[] = { 260, 300, 520, 70000 };
     unsigned n = counts[s.a[1] % (plan.prop == "THOROUGH" ? 4 : 3)];
     if (s.a[2] == 777) n = 70000;
+    desc << n << " copies of " << en(A) << ", then release";
     std::vector<dd_edge*> cp;
     cp.reserve(n);
     for (unsigned i = 0; i < n; i++) cp.push_back(new dd_edge(*A.e));
@@ -722,6 +755,7 @@ void World::opDetachAttach(const Step &s)
     cur_family = "edges";
     if (edges.empty()) { note(OC_SKIP); return; }
     EdgeSlot &A = *edges[s.a[0] % edges.size()];
+    desc << "detach " << en(A);
     A.e->detach();
     A.forest = -1;
     if (false && (s.a[1] & 1)) {
@@ -745,6 +779,7 @@ void World::opPurge(const Step &s)
 {
     cur_family = "purge";
     stats.purges++;
+    desc << "purge mode " << s.a[0] % 4;
     switch (s.a[0] % 4) {
         case 0:
             if (compute_table::removeStalesFromMonolithic()) stats.fired["purge_stales"]++;
@@ -803,6 +838,7 @@ void World::opRebuild(const Step &s)
     for (size_t i = pts.size(); i > 1; i--) std::swap(pts[i-1], pts[R.below(i)]);
     dd_edge built(F.f);
     const unsigned path = s.a[1] % 2;
+    desc << "rebuild " << en(A) << " (" << pts.size() << " points) along path " << path << " in " << fn(A.forest);
     try {
         // EV+ default is +inf: combine by min; MT: default 0 and arbitrary
         // values: build by layering with a value-wise approach
